@@ -102,6 +102,20 @@ def storage_family(mode, tier, seed, histories=None, tag=None):
                 f[k] = ev[k]
         if ev and ev.get("ev") == "crash":
             f["image"] = ev.get("kind")
+    # fault mode: attach the failing I/O site of the history to each of its findings
+    if mode == "fault":
+        sites = {}
+        cur = None
+        with open(tp) as fh:
+            for line in fh:
+                e = json.loads(line)
+                if e["ev"] == "reset":
+                    cur = e.get("id")
+                elif e["ev"] == "fault_info":
+                    sites[cur] = (e.get("site"), e.get("kind"))
+        for f in findings:
+            if f.get("history") in sites:
+                f["fault_site"], f["fault_kind"] = sites[f["history"]]
     # event census
     census = {}
     with open(tp) as fh:
